@@ -319,7 +319,7 @@ impl Property for C04 {
     const ID: &'static str = "C04";
 
     fn rule() -> String {
-        "Model-based histories over the transaction mutation API (add/prepend/insert/set input and output, add_inputs/add_outputs, set_version, set_nlocktime, clone, adopting the clone a setter returns) interleaved with sighash_preimage and sign calls of all fourteen flag values; every inserted element is fresh so a stale hash differs. Bounded-exhaustive: every sequence of length <= 4 (quick) / <= 5 (thorough) over a 18-letter alphabet (8 whole-element mutators, 3 single-field replacements through set_input/set_output — same outpoint with another sequence, same txid with another vout, same script with another value —, set_version, set_nlocktime, clone, one sighash per cache-relevant class 0x41/0xc1/0x42/0x43) from a 2-in/2-out start; plus random histories of length <= 60. Oracle: after every step, on a clone, sighash_preimage for each of the fourteen flags and each input index equals the result on Transaction::from_bytes(tx.to_bytes()) (same bytes or both Err); the history's own sighash/sign results are compared the same way. Non-trivial = the history fills a cache slot, later mutates the hashed part, later reads that slot again; distinct by hash of the serialised history.".into()
+        "Model-based histories over the transaction mutation API (add/prepend/insert/set input and output, add_inputs/add_outputs, set_version, set_nlocktime, clone, adopting the clone a setter returns) interleaved with sighash_preimage and sign calls of all fourteen flag values; every inserted element is fresh so a stale hash differs. Bounded-exhaustive: every sequence of length <= 4 (quick) / <= 5 (thorough) over a 18-letter alphabet (8 whole-element mutators, 3 single-field replacements through set_input/set_output — same outpoint with another sequence, same txid with another vout, same script with another value —, set_version, set_nlocktime, clone, one sighash per cache-relevant class 0x41/0xc1/0x42/0x43) from a 2-in/2-out start (and, one level shallower, from 1-in/2-out, 2-in/1-out, 1-in/1-out and 1-in/0-out starts); plus random histories of length <= 60. Oracle: after every step, on a clone, sighash_preimage for each of the fourteen flags and each input index equals the result on Transaction::from_bytes(tx.to_bytes()) (same bytes or both Err); the history's own sighash/sign results are compared the same way. Non-trivial = the history fills a cache slot, later mutates the hashed part, later reads that slot again; distinct by hash of the serialised history.".into()
     }
 
     fn assumptions() -> Vec<String> {
@@ -351,8 +351,16 @@ impl Property for C04 {
                     ops.push(alpha[c % alpha.len()].clone());
                     c /= alpha.len();
                 }
-                if !f(Case { n_in: 2, n_out: 2, ops }) {
+                if !f(Case { n_in: 2, n_out: 2, ops: ops.clone() }) {
                     return;
+                }
+                // other starting shapes (one input / one output / no output), one level shallower
+                if len < maxlen {
+                    for (n_in, n_out) in [(1u8, 2u8), (2, 1), (1, 1), (1, 0)] {
+                        if !f(Case { n_in, n_out, ops: ops.clone() }) {
+                            return;
+                        }
+                    }
                 }
             }
         }
